@@ -8,8 +8,13 @@
 (*                                                                           *)
 (* Text is a sequence of Unicode code points (TLC cannot look inside a        *)
 (* string); catalog keys and language codes are strings.  A catalog is a      *)
-(* function  full key -> (language -> text), exactly the shape of the map     *)
-(* `messages` that tools/lang generates into internal/i18n/messages.go.       *)
+(* function  full key -> (language -> entry), the shape of the map `messages` *)
+(* that tools/lang generates into internal/i18n/messages.go; an entry is      *)
+(* [c |-> the text as code points] (the logged catalog also carries s, the    *)
+(* same text as a string, so that whole texts can be compared cheaply).  The  *)
+(* operators below take the catalog as C = [keys |-> DOMAIN cat, at |-> cat]  *)
+(* (see Catalog) so that TLC does not rebuild the domain of a 2 000-key       *)
+(* record on every membership test.                                           *)
 EXTENDS Integers, Sequences, FiniteSets, TLC
 
 LB == 123   RB == 125   BAR == 124   DOT == 46   SP == 32   USC == 95
@@ -78,19 +83,22 @@ Shown(kind, txt) ==
     [] OTHER                 -> txt
 
 (* The lookup with the documented English fallback (i18n.translate). *)
-Has(cat, fk, lang)   == fk \in DOMAIN cat /\ lang \in DOMAIN cat[fk]
-Found(cat, fk, lang) == Has(cat, fk, lang) \/ Has(cat, fk, "en")
-Text(cat, fk, lang)  == IF Has(cat, fk, lang) THEN cat[fk][lang] ELSE cat[fk]["en"]     \* when Found
+Catalog(cat)       == [keys |-> DOMAIN cat, at |-> cat]
+Has(C, fk, lang)   == fk \in C.keys /\ lang \in DOMAIN C.at[fk]
+Found(C, fk, lang) == Has(C, fk, lang) \/ Has(C, fk, "en")
+Entry(C, fk, lang) == IF Has(C, fk, lang) THEN C.at[fk][lang] ELSE C.at[fk]["en"]     \* when Found
+Text(C, fk, lang)  == Entry(C, fk, lang).c
 
 -----------------------------------------------------------------------------
 (* The contract on one catalog entry: every text non-empty; every translation *)
 (* names the same placeholders as the English text.                           *)
-EntryFailures(cat, fk) ==
-     {"empty-text/" \o fk \o "/" \o l : l \in {x \in DOMAIN cat[fk] : cat[fk][x] = <<>>}}
-  \cup (IF ~Has(cat, fk, "en") THEN {} ELSE
-        LET pe == Placeholders(cat[fk]["en"])
+EntryFailures(C, fk) ==
+  LET e == C.at[fk] IN
+     {"empty-text/" \o fk \o "/" \o l : l \in {x \in DOMAIN e : e[x].c = <<>>}}
+  \cup (IF "en" \notin DOMAIN e THEN {} ELSE
+        LET pe == Placeholders(e["en"].c)
         IN  {"placeholders/" \o fk \o "/" \o l :
-               l \in {x \in DOMAIN cat[fk] \ {"en"} : cat[fk][x] # cat[fk]["en"] /\ Placeholders(cat[fk][x]) # pe}})
+               l \in {x \in DOMAIN e \ {"en"} : e[x].c # e["en"].c /\ Placeholders(e[x].c) # pe}})
 
 (* The domain: a constant string is a message key of this sink when ...       *)
 (*   it can be emitted at all (live: see the extractor), has no blank in it   *)
@@ -105,28 +113,40 @@ WF(r) == /\ r.live
          /\ (r.kind = "Say" => SayKeyShaped(r.kc))
 
 (* The entry a site reaches in language l. *)
-SiteKey(cat, r, l) ==
+SiteKey(C, r, l) ==
   LET fk == FullKey(r.kind, r.key, r.kc)
-  IN  IF r.kind = "Opt" /\ ~Found(cat, fk, l) THEN "opt." \o r.key ELSE fk
+  IN  IF r.kind = "Opt" /\ ~Found(C, fk, l) THEN "opt." \o r.key ELSE fk
 
 (* The contract on one emitted key (clauses on the table) ...                 *)
-TableFailures(cat, shipped, r) ==
+TableFailures(C, shipped, r) ==
   IF ~WF(r) THEN {} ELSE
   LET fk0 == FullKey(r.kind, r.key, r.kc)
-      ks  == {SiteKey(cat, r, l) : l \in shipped}
-      none == \A k \in ks : k \notin DOMAIN cat
-  IN  IF none THEN {"no-text/" \o r.kind \o "/" \o fk0}
-      ELSE UNION {IF k \notin DOMAIN cat THEN {}
-                  ELSE (IF Has(cat, k, "en") THEN {} ELSE {"no-english-text/" \o k}) \cup EntryFailures(cat, k) : k \in ks}
+      ks  == {SiteKey(C, r, l) : l \in shipped}
+      in  == ks \cap C.keys
+  IN  IF in = {} THEN {"no-text/" \o r.kind \o "/" \o fk0}
+      ELSE UNION {(IF Has(C, k, "en") THEN {} ELSE {"no-english-text/" \o k}) \cup EntryFailures(C, k) : k \in in}
 
-(* ... and on what the real sink returned for it (r.out: language -> text):   *)
-(* the direct text of that language, else the English one.                    *)
-LookupFailures(cat, shipped, r) ==
+(* ... and on what the real sink returned for it (r.out: language -> string):  *)
+(* the direct text of that language, else the English one, as the sink shows  *)
+(* it.  ShowsEntry(kind, e, out) says  out = Shown(kind, e.c)  using the      *)
+(* string form of the text: out is the text itself, or the text without the   *)
+(* prefix the sink strips (Err strips twice: ELang, then errorText).          *)
+PrefixOf(kind) == CASE kind = "L" -> [c |-> LabelDot, s |-> "label."]
+                    [] kind = "M" -> [c |-> MsgDot, s |-> "msg."]
+                    [] kind \in {"E", "Err"} -> [c |-> ErrorDot, s |-> "error."]
+                    [] OTHER -> [c |-> <<>>, s |-> ""]
+ShowsEntry(kind, e, out) ==
+  LET p == PrefixOf(kind) IN
+  IF p.c = <<>> \/ ~HasPrefix(e.c, p.c) THEN out = e.s
+  ELSE IF kind = "Err" /\ HasPrefix(e.c, p.c \o p.c) THEN p.s \o p.s \o out = e.s
+  ELSE p.s \o out = e.s
+
+LookupFailures(C, shipped, r) ==
   IF ~WF(r) \/ r.kind = "Opt" THEN {} ELSE
   LET fk == FullKey(r.kind, r.key, r.kc)
   IN  IF r.kind = "Err" /\ fk = "error.user.defined" THEN {}      \* shown through its context only (errors/format.go)
       ELSE {"lookup/" \o r.kind \o "/" \o fk \o "/" \o l :
-              l \in {x \in shipped : Found(cat, fk, x) /\ r.out[x] # Shown(r.kind, Text(cat, fk, x))}}
+              l \in {x \in shipped : Found(C, fk, x) /\ ~ShowsEntry(r.kind, Entry(C, fk, x), r.out[x])}}
 
 -----------------------------------------------------------------------------
 (* Accept-Language negotiation (internal/i18n/negotiate.go), as a function.   *)
